@@ -69,6 +69,7 @@ fn main() {
                 "C07" => props::plan_c07(tier, seed),
                 "C08" => props::plan_c08(tier, seed),
                 "C01" | "C02" => props::plan_c01(tier, seed, if thorough { 40000 } else { 3000 }),
+                "C01h" | "C02h" => props::plan_history(prop, tier, seed, if thorough { if util::CFG == "p256" { 3000 } else { 10000 } } else { 800 }),
                 "C03" | "C04" | "C05" | "C06" | "C09" | "C10" | "C11" | "C13" | "C17" | "C18" => {
                     // the second configuration (P-256 + ML-KEM-768) is several times slower per operation
                     props::plan_history(prop, tier, seed, if thorough { if util::CFG == "p256" { 5000 } else { 20000 } } else { 600 })
